@@ -299,7 +299,7 @@ def main(argv=None):
   if not proof['ok']:
     coverage['explanation'] = 'the proof step did not succeed in this run (%s); counts below are from the correspondence/monitor part only' % (proof.get('broken'),)
   C.write_evidence(pid, tier, seed, 'proof' if proof['ok'] else 'other', coverage, list(getattr(mod, 'ASSUMPTIONS', [])),
-                   time.time() - t0, unlisted + (1 if (broken and exit_code) else 0))
+                   time.time() - t0, unlisted + (1 if (broken and exit_code) else 0), scratch=args.no_proof)
   for l in out_lines:
     print(l)
   print('%s tier=%s seed=%s proof=%s theorems=%d cases=%d model-compared=%d diverging=%d monitor-violations=%d wall=%.1fs' %
